@@ -17,6 +17,9 @@ EXPLANATION = (
     "dependent on the can_block parameter, and try_send passes the constant false (it never blocks). A successful send unblocks "
     "the first waiting receiver, a successful receive the first waiting sender. The three Drop impls decrement their count and, "
     "on the branch where it reaches zero, unblock inside the loop over the waiting peers; both Clone impls increment known_senders. "
+    "Capacity (CAP): the predicate whose answer guards TrySendError::Full / blocking lets a sender proceed only on the `not full` edge "
+    "of a comparison of messages.len() with the bound and only on the edge where waiting_senders.is_empty() was evaluated and true, "
+    "on every path (so also for try_send): a woken sender pushes without re-checking, its slot is reserved by that clause. "
     "(choice point first: C02; block => yield: C03.R3; clock edges: C15.)")
 NOT_DECIDED = "capacity arithmetic (>= max(bound,1)), exactly-once delivery and ordering over all histories"
 ASSUMPTIONS = ["closures are run where they are passed"]
@@ -129,4 +132,77 @@ def siblings(ctx):
         ctx.ob("C06.SIB", "disconnected-depends-on-count|" + key.split("::")[-1], ok, "`%s` reports Disconnected under a test of %s" % (key.split("::")[-1], cnt), loc=b.loc())
 
 
-RULES = [("C06.FIFO", fifo), ("C06.WAKE", recheck), ("C06.HAND", handoff), ("C06.SIB", siblings)]
+def _result_defs(b):
+    """[(site, const-bool-or-None)] of the definitions of the return place of a bool function."""
+    out = []
+    for s in b.sites():
+        st = b.at(s)
+        if st.get("k") in ("assign", "call") and st.get("dst") and st["dst"]["l"] == 0 and not st["dst"].get("p"):
+            v = None
+            if st.get("k") == "assign" and st["rv"]["k"] == "use" and st["rv"]["ops"][0].get("k") == "const":
+                v = st["rv"]["ops"][0].get("ev")
+            out.append((s, v))
+    return out
+
+
+def capacity(ctx):
+    """A parked sender does not re-check for room when it is woken: the slot that was freed for it is reserved by the clause
+    `waiting_senders is not empty => every other sender must block / report Full`.  So the predicate that lets a sender proceed
+    may answer `false` (= need not block) only after it has (a) compared messages.len() with the bound and (b) seen
+    waiting_senders empty — for every caller, blocking or not."""
+    prog = ctx.prog
+    sb = ctx.body(SEND, "C06.CAP")
+    # the predicate: bool-returning callee in the mpsc module whose result guards TrySendError::Full
+    full = [s for s, st in sb.assigns() if st["rv"]["k"] == "aggr" and st["rv"].get("variant") == "Full"]
+    if not ctx.floor("C06.CAP", "TrySendError::Full construction in send_internal", len(full), 1):
+        return
+    labs = FlowSlicer(sb).guard_labels(full[0])
+    preds = sorted(l[5:] for l in labs if l.startswith("call:" + M))
+    pb = [prog.get(p) for p in preds if prog.get(p) is not None and prog.get(p).local_ty(0) == "bool"]
+    if not ctx.floor("C06.CAP", "block predicate (bool helper guarding Full) of send_internal", len(pb), 1):
+        return
+    p = pb[0]
+    defs = _result_defs(p)
+    may_proceed = [s for s, v in defs if v != 1]         # definitions that can make the answer `false`
+    ctx.floor("C06.CAP", "definitions of the predicate's result", len(defs), 2)
+    # (b) waiting_senders.is_empty() seen true
+    ie = _calls_on_field(prog, p, ST + "waiting_senders", re.compile(r"::is_empty$"))
+    ok_b = False
+    evaluated = bool(ie) and all(p.path_exists(None, lambda x, d=d: x == d, lambda x: x == ie[0][0]) is None for d in may_proceed)
+    ctx.ob("C06.CAP", "queue-examined-before-proceeding", evaluated,
+           "`%s` cannot answer `need not block` on a path that never looked at waiting_senders (whatever the caller's mode)" % p.nkey.split("::")[-1], loc=p.loc())
+    if ie:
+        br = kinds.bool_branch(p, ie[0][0])
+        if br:
+            tr, fl = br
+            # the `empty` edge is the one that ends in tr; find its source switch block
+            srcs = [x for x in p.pred[tr]]
+            ok_b = len(srcs) == 1 and all(p.path_exists(None, lambda x, d=d: x == d, edge_ok=lambda a, nb: not (a == srcs[0] and nb == tr)) is None for d in may_proceed)
+    ctx.ob("C06.CAP", "proceed-only-if-no-sender-queued", ok_b,
+           "`%s` answers `need not block` only on paths where waiting_senders.is_empty() was evaluated and true — for blocking and non-blocking callers alike "
+           "(a woken sender pushes without re-checking, so its slot must not be taken by a later sender)" % p.nkey.split("::")[-1], loc=p.loc())
+    # (a) the capacity comparison
+    fs = FlowSlicer(p, control=False)
+    ok_a = False
+    for bb in range(len(p.blocks)):
+        t = p.term(bb)
+        if t.get("k") != "switch":
+            continue
+        l = fs.operand_labels(t["discr"], p.term_site(bb))
+        if ("field:" + ST + "messages") in l and ("field:" + M + "Channel.bound") in l and any(x.endswith("::len") for x in l):
+            arms = dict((a[0], a[1]) for a in t["arms"])
+            full_bb = arms.get(1, t["otherwise"]) if 1 in arms or 0 in arms else None
+            notfull_bb = arms.get(0, t["otherwise"])
+            if notfull_bb is not None and all(p.path_exists(None, lambda x, d=d: x == d, edge_ok=lambda a, nb: not (a == bb and nb == notfull_bb)) is None for d in may_proceed):
+                ok_a = True
+    ctx.ob("C06.CAP", "proceed-only-if-room", ok_a,
+           "`%s` answers `need not block` only on the `not full` edge of a comparison of messages.len() with the bound" % p.nkey.split("::")[-1], loc=p.loc())
+    # the answer is used for both modes: the call's arguments do not depend on how the caller was asked to behave
+    for s, t in sb.calls():
+        if p.nkey in sb.callees_of_call(t, passed=False):
+            # pushing is reachable from the `false` answer without any further test of the queue: the answer is the only guard
+            br = kinds.bool_branch(sb, s)
+            ctx.ob("C06.CAP", "answer-decides", br is not None, "send_internal branches on the predicate's answer", loc=sb.loc(s))
+
+
+RULES = [("C06.FIFO", fifo), ("C06.WAKE", recheck), ("C06.HAND", handoff), ("C06.SIB", siblings), ("C06.CAP", capacity)]
